@@ -1,5 +1,6 @@
 import Jp.Lemmas.Valid
 import Jp.Props.C03
+import Jp.Lemmas.C04Helpers
 /-
   C04 — A pointer is exactly its list of decoded tokens: build/iterate round-trips.
   `newB s` = encoded text of `Token::new(s)`, `decB t` = decoded text of token `t`.
@@ -7,89 +8,15 @@ import Jp.Props.C03
 namespace Jp.C04
 open Jp Jp.Spec
 
-def newB (s : Bytes) : Bytes := (Token.new s).bytes
-def decB (t : Bytes) : Bytes := (Token.decoded t).bytes
+-- def newB … : see Jp/Lemmas/C04Helpers.lean
+--   def newB (s : Bytes) : Bytes := (Token.new s).bytes
+-- def decB … : see Jp/Lemmas/C04Helpers.lean
+--   def decB (t : Bytes) : Bytes := (Token.decoded t).bytes
 
 -- OBLIGATIONS
 -- tokens_fromRaw count_fromRaw text_fromRaw fromTokens_tokens fromRaw_injective decoded_tokens_injective
 -- front_eq back_eq getToken_eq components_eq isRoot_iff withLeading_tokens withTrailing_tokens
 -- concat_tokens ofToken_tokens ofUsize_tokens decimal_validTok
-
-/-! ### helpers -/
-
-theorem map_newB (L : List Bytes) : L.map newB = L.map enc := by
-  apply List.map_congr_left
-  intro l _
-  exact C03.new_encoded l
-
-theorem enc_noSlash (l : Bytes) : noSlash (enc l) := validTok_noSlash (C03.enc_valid l)
-
-theorem mapEnc_noSlash (L : List Bytes) : ∀ t ∈ L.map enc, noSlash t := by
-  intro t ht
-  obtain ⟨l, _, rfl⟩ := List.mem_map.mp ht
-  exact enc_noSlash l
-
-theorem mapEnc_valid (L : List Bytes) : ∀ t ∈ L.map enc, validTok t = true := by
-  intro t ht
-  obtain ⟨l, _, rfl⟩ := List.mem_map.mp ht
-  exact C03.enc_valid l
-
-theorem decB_enc (l : Bytes) : decB (enc l) = l := by
-  unfold decB
-  rw [C03.decoded_eq_dec _ (C03.enc_valid l), C03.dec_enc]
-
-theorem map_decB_enc (L : List Bytes) : (L.map enc).map decB = L := by
-  induction L with
-  | nil => rfl
-  | cons l L ih => simp only [List.map_cons, decB_enc, ih]
-
-theorem enc_decB (t : Bytes) (h : validTok t = true) : enc (decB t) = t := by
-  unfold decB
-  rw [C03.decoded_eq_dec _ h, C03.enc_dec _ h]
-
-theorem map_enc_decB (ts : List Bytes) (h : ∀ t ∈ ts, validTok t = true) :
-    (ts.map decB).map enc = ts := by
-  induction ts with
-  | nil => rfl
-  | cons t ts ih =>
-    simp only [List.map_cons]
-    rw [enc_decB t (h t (by simp)), ih (fun u hu => h u (by simp [hu]))]
-
-theorem map_enc_injective (L M : List Bytes) (h : L.map enc = M.map enc) : L = M := by
-  have := congrArg (List.map decB) h
-  rwa [map_decB_enc, map_decB_enc] at this
-
-theorem decimal_digits (n : Nat) : ∀ b ∈ decimal n, 48 ≤ b ∧ b ≤ 57 := by
-  induction n using Nat.strongRecOn with
-  | _ n ih =>
-    intro b hb
-    rw [decimal.eq_1] at hb
-    split at hb
-    · simp at hb; omega
-    · rename_i hn
-      rcases List.mem_append.mp hb with hb | hb
-      · exact ih (n / 10) (by omega) b hb
-      · simp at hb; omega
-
-theorem tildesOk_of_no_tilde (t : Bytes) (h : 126 ∉ t) : tildesOk t = true := by
-  induction t with
-  | nil => exact tildesOk_nil
-  | cons b r ih =>
-    simp only [List.mem_cons, not_or] at h
-    rw [tildesOk_cons_ne (fun e => h.1 e.symm)]
-    exact ih h.2
-
-theorem dec_of_no_tilde (t : Bytes) (h : 126 ∉ t) : dec t = t := by
-  induction t with
-  | nil => simp [dec]
-  | cons b r ih =>
-    simp only [List.mem_cons, not_or] at h
-    have hb : b ≠ 126 := fun e => h.1 e.symm
-    cases r with
-    | nil => simp [dec]
-    | cons c r' =>
-      have := ih h.2
-      simp [dec, hb, this]
 
 /-- `from_tokens(L).tokens()`, decoded, is `L` again -/
 theorem tokens_fromRaw (L : List Bytes) : (tokens (fromTokens (L.map newB))).map decB = L := by
